@@ -247,7 +247,7 @@ def small_texts(maxsize):
     return rhs, small
 
 
-def small_shard(maxsize, shard, nshards, slice_mod=0, slice_eq=0):
+def small_shard(maxsize, shard, nshards, slice_mod=0, slice_eq=0, e2min=False):
     env.setup()
     from parso.pgen2 import generate_grammar
     from parso.python.token import PythonTokenTypes
@@ -258,6 +258,10 @@ def small_shard(maxsize, shard, nshards, slice_mod=0, slice_eq=0):
     if slice_mod:
         # the seed slice: expressions with exactly `maxsize` operators whose index = slice_eq (mod slice_mod)
         rhs = [e for j, e in enumerate(exprs(maxsize, SYMS1)) if j % slice_mod == slice_eq]
+    if e2min:
+        # every expression with exactly `maxsize` operators, against the two simplest second rules only
+        rhs = list(exprs(maxsize, SYMS1))
+        small = ["'a'", 'NAME']
     st = tr = 0
     verd = collections.Counter()
     i = -1
@@ -348,6 +352,13 @@ def run(tier, seed):
             st2 += s
             tr2 += t
         R.section('small-grammars-3-operators/slice%d' % (seed % 24), acc3, slice_mod=24, slice_eq=seed % 24)
+        acc4 = core.Acc()
+        for a, s, t in core.pmap(MOD, 'small_shard', [(3, i, 64, 0, 0, True) for i in range(64)]):
+            acc4.merge(a)
+            st2 += s
+            tr2 += t
+        R.section('all-3-operator-first-rules/2-second-rules', acc4, rhs_count=len(list(exprs(3, SYMS1))),
+                  second_rules=["'a'", 'NAME'])
     R.coverage.update(states=st + st2, transitions=tr + tr2, traces_validated_against_impl=tr + tr2)
     R.rule = ('product BFS (set of Antimirov residuals x generated DFAState) over every rule of every shipped '
               'grammar file, and of every grammar "s: E1 / x: E2 / y: \'b\' NAME" with E1 over all EBNF '
